@@ -53,6 +53,12 @@ class RTCMMessage:
         self._payload = payload
         if self._payload is None:
             raise RTCMMessageError("Payload must be specified")
+        if len(self._payload) < 2 or (
+            len(self._payload) < 3
+            and self._payload[0] == 0xFE
+            and self._payload[1] >> 4 == 0xC
+        ):  # too short to hold message number (or 4076 sub-type)
+            raise RTCMMessageError("Payload too short to contain message identity")
         self._payloadi = int.from_bytes(self._payload, "big")  # payload as int
         self._payblen = len(self._payload) * 8  # length of payload in bits
         self._labelmsm = labelmsm
